@@ -33,7 +33,7 @@ def dispatch (inp obs : List String) : Verdict :=
   | some "C11" => Driver.C11.run inp obs
   | some "C06" => Driver.C06.run inp obs
   | some "C03" => Driver.C03.run inp obs
-  | some "C18" | some "C18L" => Driver.C18.run inp obs
+  | some "C18" | some "C18L" | some "C18F" => Driver.C18.run inp obs
   | some "C20" => Driver.C20.run inp obs
   | some "C07" => Driver.C07.run inp obs
   | some "C15" => Driver.C15.run inp obs
